@@ -177,6 +177,10 @@ func c04HiddenFresh(c *Ctx, bi bodyImpl, tname string, pc *ssa.Function) {
 			for _, st := range sts {
 				mm, isMake := st.Val.(*ssa.MakeMap)
 				if !isMake {
+					// built by a helper method of the same receiver that returns a fresh copy
+					if freshCopyFromHelper(pc, st.Val, h) {
+						continue
+					}
 					ok = false
 					why = "the remainder's " + h.Name() + " is not a map made in this call (it aliases another body's set)"
 					continue
@@ -216,6 +220,66 @@ func c04HiddenFresh(c *Ctx, bi bodyImpl, tname string, pc *ssa.Function) {
 			c.Check(ok, "hidden.fresh", key, al.Pos(), "fresh map, receiver's set copied in", why)
 		}
 	}
+}
+
+// freshCopyFromHelper: v is a result of a method called on pc's receiver, and every return of
+// that method yields, at that result, a map made there into which the receiver's field h is
+// copied by a range loop.
+func freshCopyFromHelper(pc *ssa.Function, v ssa.Value, h *types.Var) bool {
+	idx := 0
+	var call *ssa.Call
+	switch x := v.(type) {
+	case *ssa.Extract:
+		call, _ = x.Tuple.(*ssa.Call)
+		idx = x.Index
+	case *ssa.Call:
+		call = x
+	}
+	if call == nil {
+		return false
+	}
+	cal := call.Call.StaticCallee()
+	if cal == nil || len(cal.Blocks) == 0 || cal.Signature.Recv() == nil || len(call.Call.Args) == 0 {
+		return false
+	}
+	if a := call.Call.Args[0]; a != ssa.Value(pc.Params[0]) && !isSpillOf(a, pc.Params[0]) {
+		return false
+	}
+	n := 0
+	for _, b := range cal.Blocks {
+		ret, ok := b.Instrs[len(b.Instrs)-1].(*ssa.Return)
+		if !ok {
+			continue
+		}
+		n++
+		if idx >= len(ret.Results) {
+			return false
+		}
+		mm, ok := lookThrough(ret.Results[idx]).(*ssa.MakeMap)
+		if !ok {
+			return false
+		}
+		copied := false
+		for _, b2 := range cal.Blocks {
+			for _, ins := range b2.Instrs {
+				mu, ok := ins.(*ssa.MapUpdate)
+				if !ok || mu.Map != ssa.Value(mm) {
+					continue
+				}
+				if ex, ok := mu.Key.(*ssa.Extract); ok {
+					if nx, ok := ex.Tuple.(*ssa.Next); ok {
+						if rg, ok := nx.Iter.(*ssa.Range); ok && recvFieldLoad(cal, rg.X, h) {
+							copied = true
+						}
+					}
+				}
+			}
+		}
+		if !copied {
+			return false
+		}
+	}
+	return n > 0
 }
 
 func c04SelfFeed(c *Ctx, bi bodyImpl, tname string, pc *ssa.Function) {
@@ -450,7 +514,7 @@ func c04ContentShared(c *Ctx, bi bodyImpl, tname string, co, pc *ssa.Function) {
 				if !ok {
 					continue
 				}
-				if cal := call.Call.StaticCallee(); cal != nil && inModule(cal) && cal.Signature.Recv() != nil && namedOf(cal.Signature.Recv().Type()) == bi.named {
+				if cal := call.Call.StaticCallee(); cal != nil && inModule(cal) && cal.Signature.Recv() != nil && namedOf(cal.Signature.Recv().Type()) == bi.named && extractionHelper(cal) {
 					out[cal.Name()] = true
 				}
 			}
@@ -483,6 +547,38 @@ func c04ContentShared(c *Ctx, bi bodyImpl, tname string, co, pc *ssa.Function) {
 	}
 	c.Check(len(only) == 0, "content.shared", key, co.Pos(), "Content and PartialContent go through the same helpers",
 		"Content and PartialContent use different helpers ("+strings.Join(only, "; ")+"): exhaustive and partial processing can extract differently")
+}
+
+// extractionHelper: the method takes part in extracting content under a schema: it returns
+// a schema, content, blocks or attributes value of package hcl (helpers that only build
+// the remaining body's bookkeeping do not).
+func extractionHelper(fn *ssa.Function) bool {
+	mention := func(t types.Type) bool {
+		for i := 0; i < 3; i++ {
+			switch x := t.(type) {
+			case *types.Pointer:
+				t = x.Elem()
+				continue
+			case *types.Slice:
+				t = x.Elem()
+				continue
+			}
+			break
+		}
+		for _, n := range []string{"BodySchema", "BodyContent", "Blocks", "Attributes", "Block", "Attribute", "BlockHeaderSchema", "AttributeSchema"} {
+			if isNamed(t, modPath, n) {
+				return true
+			}
+		}
+		return false
+	}
+	sig := fn.Signature
+	for i := 0; i < sig.Results().Len(); i++ {
+		if mention(sig.Results().At(i).Type()) {
+			return true
+		}
+	}
+	return false
 }
 
 // R6: merged bodies ask every child with a schema in which nothing is required.
